@@ -9,6 +9,7 @@ from pyvc import mutants, cli
 def run(task):
     rp,q,k=task
     repo,ct=cli.load_all()
+    REG.active_regions={k["region"] for k in cli.load_known()}
     con=REG.contracts[(rp,q)]
     info=repo.func(rp,q)
     m,desc=mutants.mutant(info,k)
